@@ -20,6 +20,7 @@ func b2i(b bool) int {
 func VerifC08Free() {
 	n := vrt.Param("n", 8)
 	data := append([]byte{0xFF, 0xD8}, vrt.Bytes("b", n)...)
+	vrt.C09Guard(data, 0)
 	_, _, _, _, _, err := Decode(data)
 	vrt.Out("err", b2i(err != nil))
 }
@@ -85,6 +86,7 @@ func VerifC08Window() {
 		}
 		data = data[:end]
 	}
+	vrt.C09Guard(data, 0)
 	_, _, _, _, _, err := Decode(data)
 	vrt.Out("err", b2i(err != nil))
 }
